@@ -260,10 +260,39 @@ enum Part {
     F(coupe::VnFirst),
 }
 
+/// float runs: the integer weights are multiplied by this scale (bit pattern of an f64; 1.0 by default) and,
+/// when USE_REAL is set, wrapped in `coupe::Real` (set by the SCALE family only)
+static SCALE_BITS: std::sync::atomic::AtomicU64 = std::sync::atomic::AtomicU64::new(0x3FF0_0000_0000_0000);
+static USE_REAL: std::sync::atomic::AtomicBool = std::sync::atomic::AtomicBool::new(false);
+
+/// 2^e as an f64, exactly (normal or subnormal)
+fn pow2(e: i32) -> f64 {
+    if e >= -1022 {
+        f64::from_bits(((e + 1023) as u64) << 52)
+    } else {
+        f64::from_bits(1u64 << (e + 1074))
+    }
+}
+
 fn call(part: Part, p0: Vec<usize>, ws: Vec<i64>, flt: bool) -> Guarded<(Out, Part)> {
+    let scale = f64::from_bits(SCALE_BITS.load(std::sync::atomic::Ordering::SeqCst));
+    let use_real = USE_REAL.load(std::sync::atomic::Ordering::SeqCst);
     guarded(0, Duration::from_secs(20), move || {
         let mut p = p0;
-        let wf: Vec<f64> = ws.iter().map(|x| *x as f64).collect();
+        let wf: Vec<f64> = ws.iter().map(|x| *x as f64 * scale).collect();
+        if flt && use_real {
+            let wr: Vec<coupe::Real> = wf.iter().map(|x| coupe::Real::from(*x)).collect();
+            return match part {
+                Part::B(mut v) => {
+                    let r = v.partition(&mut p, wr.iter().cloned());
+                    ((r, p), Part::B(v))
+                }
+                Part::F(mut v) => {
+                    let r = v.partition(&mut p, &wr[..]);
+                    ((r, p), Part::F(v))
+                }
+            };
+        }
         match part {
             Part::B(mut v) => {
                 let r = if flt { v.partition(&mut p, wf.iter().cloned()) } else { v.partition(&mut p, ws.iter().cloned()) };
@@ -371,6 +400,7 @@ fn main() {
     let mut f64_genuine = 0usize;
     let mut f64_hangs = 0usize;
     let mut large = 0usize;
+    let mut scaled = 0usize;
     let big = a.tier == "thorough";
     let mut idx = 0usize;
     while idx < a.cases {
@@ -591,6 +621,56 @@ fn main() {
             w.push(coq, json, &key, nontrivial, &format!("{}:{}", if alg == 0 { "best" } else { "first" }, wfam));
             continue;
         }
+        if r.chance(1, 8) {
+            // ---- SCALE family: the integer families times 2^s (subnormal .. 2^900): every value, sum,
+            // difference and half is exact, so the integer model (flt = true) must be matched exactly --
+            // as plain f64 or through coupe::Real
+            let (wfam, ws) = gen_weights(&mut r, big);
+            let n = ws.len();
+            let (_pf, p0) = gen_partition(&mut r, n);
+            let e: i32 = match r.below(12) {
+                0 => -1074 + r.range(4, 10) as i32,
+                1 => -1000,
+                2 => -300,
+                3 => -70,
+                4 => -53,
+                5 => -52,
+                6 => -10,
+                7 => 0,
+                8 => 10,
+                9 => 52,
+                10 => 300,
+                _ => 900,
+            };
+            let real = r.chance(1, 2);
+            let this = idx;
+            idx += 1;
+            if let Some(o) = a.only {
+                if o != this {
+                    continue;
+                }
+            }
+            scaled += 1;
+            SCALE_BITS.store(pow2(e).to_bits(), std::sync::atomic::Ordering::SeqCst);
+            USE_REAL.store(real, std::sync::atomic::Ordering::SeqCst);
+            let mut part = Some(if alg == 0 { Part::B(coupe::VnBest) } else { Part::F(coupe::VnFirst) });
+            let (coq, impl_json, _) = one_call(&mut part, alg, true, &ws, &p0, &mut c);
+            SCALE_BITS.store(1f64.to_bits(), std::sync::atomic::Ordering::SeqCst);
+            USE_REAL.store(false, std::sync::atomic::Ordering::SeqCst);
+            let json = format!(
+                "{{\"algorithm\":\"{}\",\"weight_type\":\"{}\",\"integer_weights\":{},\"scale\":\"2^{}\",\"note\":\"the weights passed are integer_weights * scale, exactly\",\"partition\":{},\"impl\":{}}}",
+                if alg == 0 { "VnBest" } else { "VnFirst" },
+                if real { "coupe::Real" } else { "f64" },
+                json_i64s(&ws),
+                e,
+                json_usizes(&p0),
+                impl_json
+            );
+            let key = format!("scale|{}|{}|{}|{:?}|{:?}", alg, real, e, ws, p0);
+            let nontrivial = n >= 3 && p0.iter().any(|x| *x != 0) && ws.iter().any(|x| *x != 0);
+            w.push(coq, json, &key, nontrivial, &format!("{}:scaled:{}", if alg == 0 { "best" } else { "first" }, wfam));
+            continue;
+        }
         let (wfam, ws) = gen_weights(&mut r, big);
         let n = ws.len();
         // malformed stream: partition length differs (shorter, longer, empty)
@@ -631,7 +711,7 @@ fn main() {
         }
     }
     w.finish(&format!(
-        "\"hangs\":{},\"panics\":{},\"f64_runs\":{},\"f64_genuine\":{},\"f64_vnbest_hangs\":{},\"moved\":{},\"reuse_sequences\":{},\"reuse_calls\":{},\"large\":{}",
-        c.hangs, c.panics, c.f64_runs, f64_genuine, f64_hangs, c.moved, reuse_sequences, reuse_calls, large
+        "\"hangs\":{},\"panics\":{},\"f64_runs\":{},\"f64_genuine\":{},\"f64_vnbest_hangs\":{},\"moved\":{},\"reuse_sequences\":{},\"reuse_calls\":{},\"large\":{},\"scaled\":{}",
+        c.hangs, c.panics, c.f64_runs, f64_genuine, f64_hangs, c.moved, reuse_sequences, reuse_calls, large, scaled
     ));
 }
